@@ -120,6 +120,7 @@ type sched struct {
 	msgDone    map[[3]int]bool // {to, round, from}: that broadcast message was handled (scheduler goroutine only)
 	p2pDone    map[[2]int]bool // {to, from}: the FROST round-1 p2p share was handled
 	burst      int             // copies per concurrent group at the targeted receiver (0: 1..3 as everywhere)
+	msgDur     time.Duration   // running estimate of one broadcast handler execution (scheduler goroutine only)
 	nNodes     int
 
 	sent atomic.Int64
@@ -143,6 +144,7 @@ type sched struct {
 	tgtWhy       string
 	concGroups   int // concurrent groups delivered
 	concPairs    int // pairs of copies of one message whose handler executions overlapped
+	barriers     int // concurrent groups lined up by protoBarrier
 
 	// logical clock over sends and completed deliveries (pedersen pubkey-channel analysis)
 	tick        int64
@@ -564,6 +566,7 @@ func (s *sched) deliver(e *fakenet.Envelope) {
 	}
 	// Concurrent group: the original and 1..3 copies are handed to the receiver's handler from
 	// separate goroutines released together, so the handler executions for one broadcast overlap.
+	t0 := time.Now()
 	copies := 0
 	if isMsg && (s.dupProfile == dupConcurrent || (s.mode == modeConcurrentTargeted && toIdx != s.tgtC && fromIdx != s.tgtC)) {
 		copies = 1 + s.rng.Intn(3)
@@ -638,7 +641,24 @@ func (s *sched) deliver(e *fakenet.Envelope) {
 			s.mu.Unlock()
 			close(ch)
 		}()
-		close(start)
+		// In the targeted mode (and for half of the groups of the concurrent profile) the copies are
+		// additionally lined up right before the receiver's callback, see protoBarrier.
+		if s.mode == modeConcurrentTargeted || s.rng.Intn(2) == 0 {
+			hold := 3 * s.msgDur
+			if hold < 4*time.Millisecond {
+				hold = 4 * time.Millisecond
+			}
+			if hold > 80*time.Millisecond {
+				hold = 80 * time.Millisecond
+			}
+			if protoBarrier(hold, func() { close(start) }) {
+				s.mu.Lock()
+				s.barriers++
+				s.mu.Unlock()
+			}
+		} else {
+			close(start)
+		}
 	} else {
 		go func() {
 			s.net.Deliver(e)
@@ -663,6 +683,17 @@ func (s *sched) deliver(e *fakenet.Envelope) {
 	case <-s.stop:
 	}
 	t.Stop()
+	if isMsg && copies == 0 {
+		select {
+		case <-ch: // handler returned: running estimate of one broadcast handler execution (pacing of the barrier)
+			if d := time.Since(t0); s.msgDur == 0 {
+				s.msgDur = d
+			} else {
+				s.msgDur = (3*s.msgDur + d) / 4
+			}
+		default:
+		}
+	}
 
 	// ---- re-delivery bookkeeping and triggers ----
 	from, to := fromIdx, toIdx
@@ -831,6 +862,7 @@ type schedStats struct {
 	TgtWhy       string         `json:"targeted_pattern_abandoned_why,omitempty"`
 	ConcGroups   int            `json:"concurrent_duplicate_groups"`
 	ConcPairs    int            `json:"concurrent_duplicate_pairs"`
+	Barriers     int            `json:"concurrent_groups_lined_up_at_callback"`
 }
 
 func (s *sched) stats() schedStats {
@@ -851,7 +883,7 @@ func (s *sched) stats() schedStats {
 	return schedStats{Mode: modeNames[s.mode], Victim: s.victim, Sent: s.sent.Load(), Delivered: s.done.Load(),
 		Inversions: s.inversions, RoundOverlap: s.roundOverlap, LeftInFlight: s.leftInFlight, AgedOut: s.agedOut, MaxPool: s.maxPool, Classes: cl,
 		DupProfile: dupNames[s.dupProfile], Redeliveries: rd, RedelivTotal: total, TargetB: s.tgtB, TargetC: s.tgtC,
-		TgtCompleted: s.tgtCompleted, TgtAbandoned: s.tgtAbandoned, TgtWhy: s.tgtWhy, ConcGroups: s.concGroups, ConcPairs: s.concPairs}
+		TgtCompleted: s.tgtCompleted, TgtAbandoned: s.tgtAbandoned, TgtWhy: s.tgtWhy, ConcGroups: s.concGroups, ConcPairs: s.concPairs, Barriers: s.barriers}
 }
 
 // orderHash identifies the schedule: the sequence of (from, to, class) deliveries.
